@@ -112,6 +112,75 @@ def list_obligation(chk, prog, spec, hs):
     chk.run('list:' + method, prog, harness, bounds=dict(sizes, page_size='any int32', page_token='absent or any uuid', projects='vocabulary %s for every row and for the request' % PROJECT_VOCAB), setup=world.setup, max_paths=100000)
 
 
+def topic_list_obligation(chk, prog, method, entity, field, hs):
+    """ListTopicSubscriptions / ListTopicSnapshots: exactly the live children of THE live topic of that name, in id order, paged.
+    The state may hold a deleted topic that carries the same name as the live one (delete-then-create), with children of its own"""
+    h = [x for x in hs if x['method'] == method][0]
+    sizes = {'Topic': 2, 'Subscription': 0, 'Message': 0, 'Delivery': 0, 'Snapshot': 0}
+    sizes[entity] = 2
+    kind = 'subscriptions' if entity == 'Subscription' else 'snapshots'
+
+    def harness(ex, ob):
+        db = reldb.sym_db(ex, prog, sizes, exists=True)
+        plain_config(ex, db)
+        t0, t1 = db.t['Topic']
+        t0.v['name'] = 'projects/p/topics/r0'
+        same = ex.choose(2) == 1
+        t1.v['name'] = 'projects/p/topics/r0' if same else 'projects/p/topics/r1'
+        for i, r in enumerate(db.t[entity]):
+            r.v['name'] = 'projects/p/%s/c%d' % (kind, i)
+        reldb.assume_inv(ex, db)          # at most one live row per name: if the names coincide, one of the two topics is deleted
+        ps = z3.Int('req.page_size')
+        ex.assume(z3.And(ps >= -2**31, ps < 2**31))
+        has_tok = ex.choose(2) == 1
+        tok = z3.Int('req.page_token_id')
+        ex.assume(z3.And(tok >= 0, tok < 2**128))
+        req = ex.new_ptr(ex.new_struct(PB + method + 'Request', Topic='projects/p/topics/r0', PageSize=ps, PageToken=UUIDStr(tok) if has_tok else ''))
+        resp, err, code = call_handler(ex, db, h, req)
+
+        def describe(m):
+            return {'topic': 'projects/p/topics/r0', 'page_size': replay.mval(m, ps), 'page_token': replay.uuid_str(replay.mval(m, tok)) if has_tok else '',
+                    'rows': replay.rows_from_model(m, db.schema, db.t)}
+
+        def rp(m, desc):
+            scn = {'base_now': '2000000000000000000', 'rows': desc['rows'],
+                   'ops': [{'op': 'grpc', 'service': 'publisher', 'method': method,
+                            'request': {'topic': desc['topic'], 'pageSize': desc['page_size'], 'pageToken': desc['page_token']}}]}
+            out = replay.run_scenarios([scn])[0]
+            path = replay.save_scenario('C12', method, scn, desc)
+            if 'error' in out:
+                raise RuntimeError(out['error'][-400:])
+            r = out['results'][0]
+            live = [t for t in desc['rows']['Topic'] if t['name'] == desc['topic'] and t.get('deleted_at') is None]
+            if len(live) != 1:
+                return (r.get('code') in (None, 'OK')), path      # no live topic of that name: the call must fail
+            got = (r.get('response') or {}).get(field[0].lower() + field[1:], [])
+            eff = desc['page_size'] if 0 < desc['page_size'] < 100 else 100
+            cands = sorted((x for x in desc['rows'].get(entity, []) if (entity == 'Snapshot' or x.get('deleted_at') is None) and x['topic_id'] == live[0]['id']
+                            and (not desc['page_token'] or replay.uuid_int(x['id']) > replay.uuid_int(desc['page_token']))), key=lambda x: replay.uuid_int(x['id']))
+            return (r.get('code') not in (None, 'OK') or got != [x['name'] for x in cands[:eff]]), path
+        live_t = [And(t.exists, t.isnull('deleted_at'), ex.eq(t.v['name'], 'projects/p/topics/r0')) for t in (t0, t1)]
+        ob.verify(ex, 'lists-iff-a-live-topic-has-that-name', ex.eq(err is None, Or(*live_t)), describe, replay=rp)
+        if err is not None:
+            return
+        eff = Ite(And(ps > 0, ps < 100), ps, 100)
+        names = list(ex.getf(resp, field).items())
+        cands = []
+        for r in db.t[entity]:
+            c = And(r.exists, Or(*[And(lt, ex.eq(r.v['topic_id'], t.v['id'])) for lt, t in zip(live_t, (t0, t1))]))
+            if entity != 'Snapshot':
+                c = And(c, r.isnull('deleted_at'))
+            if has_tok:
+                c = And(c, r.v['id'] > tok)
+            cands.append((c, r))
+        ncand = sum([Ite(c, 1, 0) for c, _ in cands])
+        ob.verify(ex, 'page-length', ex.eq(len(names), Ite(ncand < eff, ncand, eff)), describe, replay=rp)
+        for k, nm in enumerate(names):
+            ob.verify(ex, 'returned-is-a-live-child-of-the-live-topic[%d]' % k, Or(*[And(c, ex.eq(r.v['name'], nm)) for c, r in cands]), describe, replay=rp)
+    chk.run('list:' + method, prog, harness, bounds=dict(sizes, page_size='any int32', page_token='absent or any uuid',
+                                                        topics='one addressed by name; the other may be a deleted topic of the same name'), setup=world.setup, max_paths=100000)
+
+
 def plain_config(ex, db):
     """listing / getting does not depend on the optional configuration columns: keep them NULL here (they are C17's subject)"""
     for r in db.t['Subscription']:
@@ -276,6 +345,7 @@ if __name__ == '__main__':
     hs = list_handlers(prog)
     for spec in LISTS:
         list_obligation(chk, prog, spec, hs)
+    topic_list_obligation(chk, prog, 'ListTopicSubscriptions', 'Subscription', 'Subscriptions', hs)
     get_obligation(chk, prog, 'GetTopic', 'publisher', 'Topic', 'topics', 'Topic', hs)
     get_obligation(chk, prog, 'GetSubscription', 'subscriber', 'Subscription', 'subscriptions', 'Subscription', hs)
     get_obligation(chk, prog, 'GetSnapshot', 'subscriber', 'Snapshot', 'snapshots', 'Snapshot', hs)
